@@ -45,7 +45,10 @@ func lookupIntrinsic(fn *ssa.Function) intrinsic {
 // allowedExternal lists non-repo packages whose functions are executed from their real SSA bodies.
 func allowedExternal(p *types.Package) bool {
 	switch p.Path() {
-	case "errors", "golang.org/x/sync/singleflight", "golang.org/x/exp/constraints", "unicode/utf8":
+	case "errors", "golang.org/x/sync/singleflight", "golang.org/x/exp/constraints", "unicode/utf8",
+		"slices", "maps", "cmp", "math/bits", "golang.org/x/exp/slices", "golang.org/x/exp/maps":
+		// plain (generic) Go without assembly or runtime hooks: executed from source, so that an
+		// edit of the repository that starts using them stays decidable
 		return true
 	}
 	return false
@@ -464,6 +467,7 @@ func init() {
 		"(*strings.Builder).Reset": func(th *Thread, _ *frame, pos token.Pos, _ *ssa.Function, a []Value) Value { delete(th.R.builders, a[0].(Ptr).Key()); return nil },
 	}
 	addTimeIntrinsics()
+	addAtomicIntrinsics()
 }
 
 func modelCall(name string) intrinsic {
